@@ -484,7 +484,9 @@ func (c *UDPConn) FindAddrByChannelNumber(chNum uint16) (net.Addr, bool) {
 		return nil, false
 	}
 
-	return b.addr, true
+	// A copy: the address ends up in the application's hands (ReadFrom), and
+	// what it does with it must not reach the binding.
+	return cloneAddr(b.addr), true
 }
 
 func (c *UDPConn) maybeBind(bound *binding) {
